@@ -7,6 +7,8 @@ sys.path.insert(0, os.path.join(V, "rules"))
 from thorough import scratch_copy  # noqa: E402
 name = sys.argv[1]
 patch = os.path.join(V, "neutral", name, "patch.diff")
+if os.path.exists(os.path.join(V, "neutral", name, "patch_current.diff")):
+    patch = os.path.join(V, "neutral", name, "patch_current.diff")      # rebased onto the current tree
 if not os.path.exists(patch):
     # a seeded change: seeded/<name>/patch_current.diff (rebased) or patch.diff
     patch = os.path.join(V, "seeded", name, "patch_current.diff")
